@@ -150,6 +150,17 @@ Fixpoint odemux_run (s : ostate) (evs : list dev) : ostate * list dout :=
     (s2, o1 ++ o2)
   end.
 
+(* no submission collides with an id in flight (and fewer than 2^16 are in flight) *)
+Fixpoint no_collision (os : ostate) (evs : list dev) : Prop :=
+  match evs with
+  | [] => True
+  | e :: r =>
+    match e with
+    | Submit _ id _ => map_mem id (o_map os) = false /\ lenN (o_map os) < 65536
+    | _ => True
+    end /\ no_collision (fst (odemux_step os e)) r
+  end.
+
 (* ---- observation functions used by the theorems and the entry point --- *)
 Definition dres_eqb (a b : dres) : bool :=
   match a, b with
